@@ -441,3 +441,140 @@ fn c03_division_by_zero() {
     }
     verify(it, depth, gas, 2, 5, below, ZERO);
 }
+
+// ---------------------------------------------------------------------------------------------------------
+// Group B glue: DIV / MOD / SDIV / SMOD relative to ruint's division kernel.
+// `Uint::div_rem` (behind `/`, `%`, wrapping_div, wrapping_rem) is replaced by a memoising stand-in: for a given operand
+// pair it returns one arbitrary (q, r) constrained only by facts of true division (r < d; q <= n; d == 1 => q == n, r == 0;
+// d >= 2 => q <= n/2), and the SAME pair again when asked again. The harness obtains its reference quotient/remainder from the
+// same stand-in, so what is decided is everything AROUND the kernel: operand order, the zero-divisor rule, absolute values,
+// the MIN / -1 case, sign fix-up, the sign of SMOD following the dividend — for all 2^512 operand pairs. The kernel itself
+// (that q, r are THE quotient and remainder) is trusted. Natively (concrete playback) the real kernel runs on both sides.
+static mut DR_SET: [bool; 2] = [false; 2];
+static mut DR_N: [W; 2] = [[0; 4]; 2];
+static mut DR_D: [W; 2] = [[0; 4]; 2];
+static mut DR_Q: [W; 2] = [[0; 4]; 2];
+static mut DR_R: [W; 2] = [[0; 4]; 2];
+
+fn le(a: W, b: W) -> bool {
+    !r_ult(b, a)
+}
+
+pub fn stub_div_rem_memo<const BITS: usize, const LIMBS: usize>(
+    a: revm_primitives::ruint::Uint<BITS, LIMBS>,
+    b: revm_primitives::ruint::Uint<BITS, LIMBS>,
+) -> (revm_primitives::ruint::Uint<BITS, LIMBS>, revm_primitives::ruint::Uint<BITS, LIMBS>) {
+    assert!(LIMBS == 4, "stub domain: only 256-bit division is stood in for");
+    let (x, y) = (a.as_limbs(), b.as_limbs());
+    let n: W = [x[0], x[1], x[2], x[3]];
+    let d: W = [y[0], y[1], y[2], y[3]];
+    assert!(!weq(d, ZERO), "division kernel reached with a zero divisor");
+    unsafe {
+        let mut slot = 2usize;
+        if DR_SET[0] && weq(DR_N[0], n) && weq(DR_D[0], d) {
+            slot = 0;
+        } else if DR_SET[1] && weq(DR_N[1], n) && weq(DR_D[1], d) {
+            slot = 1;
+        }
+        if slot == 2 {
+            slot = if !DR_SET[0] { 0 } else { 1 };
+            assert!(!DR_SET[slot], "stub domain: more than two distinct divisions in one opcode");
+            let q: W = kani::any();
+            let r: W = kani::any();
+            kani::assume(r_ult(r, d));
+            kani::assume(le(q, n));
+            if weq(d, ONE) {
+                kani::assume(weq(q, n) && weq(r, ZERO));
+            } else {
+                kani::assume(le(q, r_shr_small(n, 1)));
+            }
+            DR_SET[slot] = true;
+            DR_N[slot] = n;
+            DR_D[slot] = d;
+            DR_Q[slot] = q;
+            DR_R[slot] = r;
+        }
+        let mut qo = [0u64; LIMBS];
+        let mut ro = [0u64; LIMBS];
+        let mut i = 0;
+        while i < 4 {
+            qo[i] = DR_Q[slot][i];
+            ro[i] = DR_R[slot][i];
+            i += 1;
+        }
+        (revm_primitives::ruint::Uint::from_limbs(qo), revm_primitives::ruint::Uint::from_limbs(ro))
+    }
+}
+
+fn r_neg(a: W) -> W {
+    r_add(r_not(a), ONE)
+}
+fn r_abs(a: W) -> W {
+    if neg(a) { r_neg(a) } else { a }
+}
+const MIN_I256: W = [0, 0, 0, 1 << 63];
+const MINUS_ONE: W = ONES;
+
+/// quotient and remainder of two non-negative words through the (stood-in or, natively, real) kernel
+fn kernel(n: W, d: W) -> (W, W) {
+    let (q, r) = u(n).div_rem(u(d));
+    (w(&q), w(&r))
+}
+
+#[kani::proof]
+#[kani::unwind(34)]
+#[kani::stub(revm_primitives::ruint::Uint::div_rem, stub_div_rem_memo)]
+fn c03_div_mod_glue() {
+    let (a, b, below) = (any_w(), any_w(), any_w());
+    let is_mod: bool = kani::any();
+    let (mut it, depth, gas) = setup(2, 3, a, b, ZERO, below);
+    let mut host = NoHost;
+    if is_mod {
+        arithmetic::rem::<NoHost>(&mut it, &mut host);
+    } else {
+        arithmetic::div::<NoHost>(&mut it, &mut host);
+    }
+    let want = if weq(b, ZERO) {
+        ZERO
+    } else {
+        let (q, r) = kernel(a, b);
+        if is_mod { r } else { q }
+    };
+    verify(it, depth, gas, 2, 5, below, want);
+}
+
+#[kani::proof]
+#[kani::unwind(34)]
+#[kani::stub(revm_primitives::ruint::Uint::div_rem, stub_div_rem_memo)]
+fn c03_sdiv_glue() {
+    let (a, b, below) = (any_w(), any_w(), any_w());
+    let (mut it, depth, gas) = setup(2, 3, a, b, ZERO, below);
+    let mut host = NoHost;
+    arithmetic::sdiv::<NoHost>(&mut it, &mut host);
+    let want = if weq(b, ZERO) {
+        ZERO
+    } else if weq(a, MIN_I256) && (weq(b, MINUS_ONE) || weq(b, ONE)) {
+        MIN_I256 // -2^255 / -1 wraps to -2^255 ; -2^255 / 1 = -2^255
+    } else {
+        let (q, _) = kernel(r_abs(a), r_abs(b));
+        if neg(a) != neg(b) { r_neg(q) } else { q }
+    };
+    verify(it, depth, gas, 2, 5, below, want);
+}
+
+#[kani::proof]
+#[kani::unwind(34)]
+#[kani::stub(revm_primitives::ruint::Uint::div_rem, stub_div_rem_memo)]
+fn c03_smod_glue() {
+    let (a, b, below) = (any_w(), any_w(), any_w());
+    let (mut it, depth, gas) = setup(2, 3, a, b, ZERO, below);
+    let mut host = NoHost;
+    arithmetic::smod::<NoHost>(&mut it, &mut host);
+    let want = if weq(b, ZERO) || weq(a, ZERO) {
+        ZERO
+    } else {
+        let (_, r) = kernel(r_abs(a), r_abs(b));
+        if neg(a) { r_neg(r) } else { r } // the result takes the sign of the dividend
+    };
+    verify(it, depth, gas, 2, 5, below, want);
+}
